@@ -136,6 +136,8 @@ YAML_SPECIALS = [
     "--- \ntasks: {t0: {command: [\"true\"]}}\n--- \ntasks: 5\n",
     "tasks:\n\tt0: {}\n", "", "\n", "null\n", "[]\n", "7\n", "\"string\"\n", "tasks:\n", "tasks: ~\npipelines: ~\ncontexts: ~\nwatchers: ~\n",
     "tasks:\n  t0:\npipelines:\n  p0:\n    -\ncontexts:\n  c0:\nwatchers:\n  w0:\n",
+    "pipelines: {p0: [{task: t0, pipeline: p0}]}\ntasks: {t0: {command: [\"true\"]}}\n",
+    "pipelines: {p0: [{task: t0, pipeline: p1, name: a}], p1: [{task: t0, pipeline: p0, name: b}]}\ntasks: {t0: {command: [\"true\"]}}\n",
     "import: inc.yaml\n", "import: [1, 2]\n", "import:\n  - [a]\n", "import: {a: b}\n",
     "tasks: {t0: {command: [\"true\"], timeout: \"abc\"}}\n", "tasks: {t0: {command: [\"true\"], timeout: -5}}\n", "tasks: {t0: {command: [\"true\"], timeout: 1e400}}\n",
     "watchers: {w0: {watch: [\"[\"], task: t0}}\ntasks: {t0: {command: [\"true\"]}}\n", "watchers: {w0: {watch: [\"**/**/**\"], events: [bogus], task: t0}}\ntasks: {t0: {command: [\"true\"]}}\n",
@@ -177,7 +179,8 @@ def gen_cases(ctx):
             lines.insert(k, lines[k])                                  # duplicated line (duplicate key)
             tb = b"\n".join(lines)
         # imported files import each other, themselves and their own directory: the traversal must still end
-        extra = {"inc.yaml": "import: [\"inc.yaml\", \"sub/a.yaml\", \".\"]\ntasks: {inc: {command: [\"true\"]}}\n",
+        # (the imported YAML file also has keys YAML reads as booleans and integers)
+        extra = {"inc.yaml": "import: [\"inc.yaml\", \"sub/a.yaml\", \".\"]\ntasks: {inc: {command: [\"true\"], env: {yes: 1, 5: x}}, on: {command: [\"true\"]}, 2024: {command: [\"true\"]}}\n",
                  "sub/a.yaml": "import: [\"../inc.yaml\", \"a.yaml\"]\ntasks: {suba: {command: [\"true\"]}}\n",
                  "sub/b.yaml": "tasks: {subb: {command: [\"true\"]}}\n",
                  "e.env": rng.choice(ENV_FILES).decode("latin1"), "a.txt": "x", "b.txt": "y"}
